@@ -656,7 +656,9 @@ func (sys *sharedSystem) runOp(ctx context.Context, s *sched.Sched, tid int, op 
 		case "create":
 			// a name with an extension of its own: what the server derives from a name (content type) is
 			// derived for the first time by each thread
-			name := fmt.Sprintf("%s/new.t%de", d, tid)
+			// the same base name in every thread's own collection (what the server derives from a base name
+			// alone must not be shared between collections)
+			name := d + "/new"
 			if sys.freshNames {
 				// free-running race pass: a never-seen extension every time, so that derived per-name state
 				// is derived anew while other threads are at work
